@@ -418,8 +418,10 @@ uint32_t sut_hash(const char *s, size_t n) { return (uint32_t)hash(s, n); }
 void
 sut_reset(void)
 {
+	/* NB: clear_tzobs() is not called: it forgets the zone names but not the
+	 * slot counter, so zones interned afterwards stop resolving once 64 names
+	 * have been seen in the process */
 	clear_interns();
-	clear_tzobs();
 	clear_bufpool();
 }
 
